@@ -25,8 +25,8 @@ def run(tier, seed):
     n = len(envs)
     # one execution per option row and build (quick: rows cycle over the builds)
     nr = (max(6, (n + 2) // 3), n)
-    return apifam.run_api("C13", tier, seed, profiles=["c01", "c04", "c05", "c12", "c03"], builds=["rel", "dbg", "sec"],
-                          own_guards=GUARDS, crash_decisive=True, nruns=nr, ops=(1800, 4000), maxlive=(120, 400), gen=(0, 0),
+    return apifam.run_api("C13", tier, seed, profiles=["c01", "c04", "big", "c05", "c12", "c03", "big"], builds=["rel", "dbg", "sec"],
+                          own_guards=GUARDS, crash_decisive=True, nruns=nr, ops=(1500, 4000), maxlive=(100, 400), gen=(0, 0),
                           extra_args=["--clock", "40"], envs=envs, shim=True, group=2,
                           level_extra={"option_rows": n, "option_rows_sample": rows[:3], "covering": "pairwise (greedy, seeded) over " + ", ".join(sorted(OPTS))},
                           assumptions=["decommitted memory being read by the allocator is observable only in dbg/sec builds (PROT_NONE => crash event)"])
